@@ -178,6 +178,15 @@ impl RtpsWriterProxy {
 
     // Iterate over all SequenceNumbers (indices) in the advertised range.
     for s in relevant_interval {
+      // An ACKNACK can report at most 256 SequenceNumbers starting from the first
+      // missing one (RTPS SequenceNumberSet limit), so there is no point in
+      // scanning any further. Without this limit, a HEARTBEAT advertising a huge
+      // range would keep us looping and allocating here practically forever.
+      if let Some(&first_missing) = missing_seqnums.first() {
+        if s >= first_missing + SequenceNumber::from(256) {
+          break;
+        }
+      }
       match known_head {
         None => missing_seqnums.push(s), // no known changes left => s is missing
         Some(known_sn) => {
